@@ -291,8 +291,10 @@ def _branch_and_price(
                 best_solution = candidate
                 best_obj = obj
 
-                # Check gap (best-first: this node's bound is the smallest open bound)
-                gap = (best_obj - lp_obj) / max(abs(best_obj), 1e-10)
+                # Check gap against the smallest bound still open: this node's own LP value may lie
+                # above the bound of an open sibling that can still hold a better plan
+                open_bound = min(lp_obj, tree[0][0]) if tree else lp_obj
+                gap = (best_obj - open_bound) / max(abs(best_obj), 1e-10)
                 if gap < gap_tol and exact:
                     return Result(best_solution, best_obj, nodes_explored, total_cg_iters, Status.OPTIMAL)
             continue
